@@ -152,12 +152,16 @@ class BudgetModel:
         return {True, False}
 
     def commit(self, now, cost, observed):
-        if observed:
-            # a grant at an ambiguous instant means the boundary tokens were treated as expired
+        lo, hi = self.live(now)
+        if observed and hi + cost > self.max:
+            # granted although the boundary tokens, if still live, would have filled the window:
+            # the implementation treated them as expired
             self.grants = [t for t in self.grants if now - t < self.window]
-            self.grants.extend([now] * cost)
         else:
+            # otherwise the observation does not tell; tokens of age == window stay ambiguous for this instant
             self.grants = [t for t in self.grants if now - t <= self.window]
+        if observed:
+            self.grants.extend([now] * cost)
 
     def remaining(self, now):
         lo, hi = self.live(now)
